@@ -448,6 +448,12 @@ static void copy_lvalue_range (svalue_t * from) {
           {
             char *tmp, *dstr = owner->u.string;
 
+            if (size - ind2 + ind1 + fsize > CONFIG_INT (__MAX_STRING_LENGTH__))
+              {
+                /* the rvalue has already been taken off the stack */
+                free_string_svalue (from);
+                error ("*Maximum string length exceeded in range assignment.");
+              }
             owner->u.string = tmp = new_string (size - ind2 + ind1 + fsize, "copy_lvalue_range");
             if (ind1 >= 1)
               {
@@ -578,6 +584,9 @@ static void assign_lvalue_range (svalue_t * from) {
           {
             char *tmp, *dstr = owner->u.string;
 
+            /* lvalue and rvalue are both still on the stack */
+            if (size - ind2 + ind1 + fsize > CONFIG_INT (__MAX_STRING_LENGTH__))
+              error ("*Maximum string length exceeded in range assignment.");
             owner->u.string = tmp =
               new_string (size - ind2 + ind1 + fsize, "assign_lvalue_range");
             if (ind1 >= 1)
